@@ -291,3 +291,100 @@ def rule_cache_switch(db: ProgramDB) -> List[Instance]:
     if n_reads == 0:
         raise AnalysisError("no result-cache read site found in evaluation generators")
     return out
+
+
+# ---------------------------------------------------------------------------------- CACHE-FLAG-CONSISTENT
+def rule_cache_flag_consistent(db: ProgramDB) -> List[Instance]:
+    """The truth flag stored with a cached row is the flag the row is emitted with: between the cache write and the yield
+    of that row, `self._is_false_` is not re-assigned (otherwise a cache hit replays the row with another row's flag)."""
+    out = []
+    bo = db.cls("BinaryOperator")
+    # helpers that store self._is_false_ into the cache
+    storing = set()
+    for c in bo.all_subclasses():
+        for m in c.methods.values():
+            for call in own_calls(m):
+                if call_attr(call) == "insert":
+                    for a in list(call.args) + [k.value for k in call.keywords]:
+                        if isinstance(a, ast.Attribute) and a.attr == "_is_false_":
+                            storing.add(m.name)
+    if not storing:
+        raise AnalysisError("no cache write that stores the node's _is_false_ flag found")
+    n = 0
+    se = db.cls("SymbolicExpression")
+    for c in se.all_subclasses():
+        for m in c.methods.values():
+            if not m.is_generator:
+                continue
+            calls = [x for x in own_calls(m) if call_attr(x) in storing and isinstance(x.func.value, ast.Name) and x.func.value.id == "self"]
+            if not calls:
+                continue
+            cfg = CFG(m)
+            for call in calls:
+                nodes = [nd for nd in cfg.nodes if not nd.region and nd.ast is not None and nd.kind == "stmt"
+                         and any(x is call for x in ast.walk(nd.ast))]
+                for nd in nodes:
+                    n += 1
+
+                    def is_flag_assign(x: Node) -> bool:
+                        a = x.ast
+                        return x.kind == "stmt" and isinstance(a, (ast.Assign, ast.AugAssign)) and any(
+                            isinstance(t, ast.Attribute) and t.attr == "_is_false_" and isinstance(t.value, ast.Name) and t.value.id == "self"
+                            for t in (a.targets if isinstance(a, ast.Assign) else [a.target]))
+                    # path from the write to an assignment of the flag that does not pass a yield first
+                    p = cfg.find_path(nd.id, is_flag_assign, kinds=("n",), blocked=lambda x: x.has_yield or x.kind == "for")
+                    key = f"{m.short}[{unparse(call)[:50]}]"
+                    dup = [k for k in out if k.construct == key]
+                    if dup:
+                        key += f"#{len(dup) + 1}"
+                    out.append(inst("CACHE-FLAG-CONSISTENT", HOLDS if p is None else VIOLATION, m, key,
+                                    "the row is emitted with the truth flag that was stored with it" if p is None else
+                                    f"the truth flag is re-assigned (line {cfg.nodes[p[-1].dst].lineno}) after the row was stored "
+                                    f"and before it is emitted: the cache keeps the previous row's flag, so a cache hit replays "
+                                    f"this row as true/false wrongly (results differ with caching on/off and on re-evaluation)",
+                                    line=call.lineno))
+    if n == 0:
+        raise AnalysisError("no cache-storing call site found in evaluation generators")
+    return out
+
+
+# ---------------------------------------------------------------------------------- INSERT-RETRIEVABLE
+def rule_insert_retrievable(db: ProgramDB) -> List[Instance]:
+    """Writer/reader agreement of the index: whatever insert(index=True) stores must be stored where
+    retrieve(from_index=True) looks.  Decided by abstract interpretation of insert() for index=True and an empty /
+    non-empty assignment: the index store must be written, the flat store must not be the only one written."""
+    from ..abseval import AbsEval, State, const, TOP, TRUE, FALSE, EMPTY
+    out = []
+    ic = db.cls("IndexedCache")
+    ins, ret = ic.methods.get("insert"), ic.methods.get("retrieve")
+    if ins is None or ret is None:
+        raise AnalysisError("IndexedCache.insert/retrieve not found")
+    cfg = CFG(ins)
+    written = fields_mutated_by(db, ic, ins)
+    idx_sites = {id(n) for f in ("cache",) for n in written.get(f, [])}
+    flat_sites = {id(n) for n in written.get("flat_cache", [])}
+    if not idx_sites:
+        raise AnalysisError("IndexedCache.insert: no write into the index store found")
+    pa = "assignment" if "assignment" in ins.params else ins.positional_params[1]
+    for shape, val in (("empty assignment (binds none of the keys)", EMPTY), ("non-empty assignment", ("obj", "truthy"))):
+        ev = AbsEval(db, ins, cfg)
+        IN = ev.run(State({"index": TRUE, pa: val}), kinds=("n",))
+        reach = {nid for nid, sts in IN.items() if sts}
+
+        def touches(sites) -> bool:
+            for n in cfg.nodes:
+                if n.id in reach and n.ast is not None:
+                    for x in ast.walk(n.ast) if not isinstance(n.ast, (ast.For, ast.If, ast.While)) else []:
+                        if id(x) in sites:
+                            return True
+                    if id(n.ast) in sites:
+                        return True
+            return False
+        w_idx, w_flat = touches(idx_sites), touches(flat_sites)
+        ok = w_idx and not w_flat
+        out.append(inst("INSERT-RETRIEVABLE", HOLDS if ok else VIOLATION, ins, f"IndexedCache.insert[index=True, {shape.split(' (')[0]}]",
+                        f"{shape}: stored in the index, where retrieve() looks" if ok else
+                        f"{shape}: index written={w_idx}, flat store written={w_flat}; retrieve(from_index=True) reads only the "
+                        f"index, while the coverage check treats an empty assignment as covering every lookup: the output is "
+                        f"claimed covered and never returned"))
+    return out
